@@ -399,6 +399,7 @@ fn build_universe(a: &Args) -> (Vec<Elem>, BTreeMap<String, u64>) {
                         seed,
                         single: a.frac("single", (1, 1)),
                         pair: a.frac("pair", (0, 1)),
+                        pair_fixed: a.frac("pair-fixed", (1, 1)),
                         seed_tags: a.list("seed-tags"),
                         trivia_tags: a.list("trivia-tags"),
                         ctx_filter: a.list("ctx"),
@@ -413,21 +414,24 @@ fn build_universe(a: &Args) -> (Vec<Elem>, BTreeMap<String, u64>) {
                 let (es, _) = universe::gap(
                     &defs,
                     &universe::GapOpts {
-                        seed,
-                        single: a.frac("nl-single", (1, 40)),
+                        seed: 0x5eed_f1ed,
+                        single: a.frac("nl-fixed", (1, 40)),
                         pair: (0, 1),
+                        pair_fixed: (1, 1),
                         seed_tags: a.list("seed-tags"),
                         trivia_tags: a.list("trivia-tags"),
                         ctx_filter: a.list("ctx"),
                     },
                 );
+                // the base slice is seed-independent (seed 0 below); the seed then samples within it
                 let mut base = es;
                 let fr = a.frac("nl-chunk", (1, 20));
                 base.extend(
                     universe::fixture_chunks(&fixroot, 400)
                         .into_iter()
-                        .filter(|e| universe::pick(seed, &e.id, fr.0, fr.1)),
+                        .filter(|e| universe::pick(0x5eed_f1ed, &e.id, fr.0, fr.1)),
                 );
+                let sample = a.frac("nl-sample", (1, 1));
                 let styles: [(&str, &str); 8] = [
                     ("crlf", "\r\n"), ("cr", "\r"), ("vt", "\u{b}"), ("ff", "\u{c}"),
                     ("nel", "\u{85}"), ("ls", "\u{2028}"), ("ps", "\u{2029}"), ("mix", ""),
@@ -453,8 +457,9 @@ fn build_universe(a: &Args) -> (Vec<Elem>, BTreeMap<String, u64>) {
                         } else {
                             e.text.replace('\n', rep)
                         };
-                        if universe::parses(&text) {
-                            elems.push(Elem { id: format!("nl:{}:{}", name, e.id), text, tags: vec![] });
+                        let id = format!("nl:{}:{}", name, e.id);
+                        if universe::pick(seed, &id, sample.0, sample.1) && universe::parses(&text) {
+                            elems.push(Elem { id, text, tags: vec![] });
                         }
                     }
                 }
